@@ -1362,6 +1362,151 @@ def _inline_helpers(tree, modname, ref, log):
         ast.fix_missing_locations(tree)
 
 
+def _module_imports(tree, modname, is_pkg=False):
+    """{local name: dotted target} of the module-level imports."""
+    out = {}
+    for st in tree.body:
+        if isinstance(st, ast.Import):
+            for a in st.names:
+                if a.asname:
+                    out[a.asname] = a.name
+                elif '.' not in a.name:
+                    out[a.name] = a.name
+        elif isinstance(st, ast.ImportFrom):
+            base = st.module or ''
+            if st.level:
+                pkg = modname.split('.')
+                if not is_pkg:
+                    pkg = pkg[:-1]
+                pkg = pkg[:len(pkg) - (st.level - 1)]
+                base = '.'.join(pkg + ([st.module] if st.module else []))
+            for a in st.names:
+                if a.name != '*':
+                    out[a.asname or a.name] = (base + '.' + a.name) if base \
+                        else a.name
+    return out
+
+
+def _module_level_names(tree):
+    out = set()
+    for st in tree.body:
+        if isinstance(st, (ast.FunctionDef, ast.AsyncFunctionDef,
+                           ast.ClassDef)):
+            out.add(st.name)
+        elif isinstance(st, (ast.Import, ast.ImportFrom)):
+            for a in st.names:
+                out.add(a.asname or a.name.split('.')[0])
+        else:
+            out |= _names(st, ast.Store)
+    return out
+
+
+def _import_foreign_helpers(tree, modname, ref, log):
+    """A recorded function calls `alias.h(...)`, `alias` a module-level
+    import of another module H of the package and `h` a plain module-level
+    helper of H the reference does not know (a body two modules used to spell
+    out, now shared).  A copy of `h` becomes a private function of this
+    module -- every module-level name of H it reads spelled `alias.name`,
+    unless both modules import the same thing under that name -- and the
+    calls go to the copy; the helpers step then inlines it like a local one.
+    Calling the copy is calling `h`: the same statements over the same
+    objects (module attributes of H are read when the body runs, as in H)."""
+    from . import core as _core
+    if not set(ref.get(modname, {})) - {'__sha1__'}:
+        return
+    is_pkg = os.path.isfile(os.path.join(
+        _core.REPO, modname.replace('.', os.sep), '__init__.py'))
+    for _round in range(4):
+        imports = _module_imports(tree, modname, is_pkg)
+        taken = _module_level_names(tree)
+        rebound = set()
+        for st in tree.body:
+            if not isinstance(st, (ast.Import, ast.ImportFrom)):
+                rebound |= {x.id for x in ast.walk(st) if isinstance(
+                    x, ast.Name) and not isinstance(x.ctx, ast.Load)}
+                rebound |= {a.arg for a in ast.walk(st)
+                            if isinstance(a, ast.arg)}
+        wanted = {}
+        for c in ast.walk(tree):
+            if isinstance(c, ast.Call) and isinstance(c.func, ast.Attribute) \
+                    and isinstance(c.func.value, ast.Name):
+                al, h = c.func.value.id, c.func.attr
+                hm = imports.get(al)
+                if hm is None or hm == modname or al in rebound or \
+                        hm not in ref or h in ref[hm]:
+                    continue
+                wanted.setdefault((al, hm, h), []).append(c)
+        done = False
+        for (al, hm, h), calls in sorted(wanted.items()):
+            if h in taken or any(isinstance(x, ast.Name) and x.id == h
+                                 for x in ast.walk(tree)):
+                continue
+            path = os.path.join(_core.REPO, hm.replace('.', os.sep) + '.py')
+            try:
+                with open(path) as fh:
+                    htree = ast.parse(fh.read())
+            except (OSError, SyntaxError, UnicodeDecodeError):
+                continue
+            defs = [st for st in htree.body if isinstance(
+                st, (ast.FunctionDef, ast.AsyncFunctionDef, ast.ClassDef))
+                and st.name == h]
+            if len(defs) != 1 or not isinstance(defs[0], ast.FunctionDef):
+                continue
+            hf = defs[0]
+            # bound once at module level of H, by the def
+            if any(isinstance(x, ast.Name) and x.id == h and not isinstance(
+                    x.ctx, ast.Load) for x in ast.walk(htree)):
+                continue
+            if hf.decorator_list or _simple_helper(copy.deepcopy(hf)) is None \
+                    or hf.args.kwonlyargs or any(
+                        not isinstance(d, ast.Constant)
+                        for d in hf.args.defaults):
+                continue
+            hglob = _module_level_names(htree)
+            himports = _module_imports(htree, hm)
+            params = {a.arg for a in ast.walk(hf.args)
+                      if isinstance(a, ast.arg)}
+            bound = params | {x.id for x in ast.walk(hf) if isinstance(
+                x, ast.Name) and not isinstance(x.ctx, ast.Load)}
+            if bound & hglob or al in bound:
+                continue            # a local shadows a module-level name
+            hf = copy.deepcopy(hf)
+
+            class Q(ast.NodeTransformer):
+                def visit_Name(self, node):
+                    if node.id in hglob and node.id not in bound and not (
+                            node.id in himports and imports.get(node.id)
+                            == himports[node.id]
+                            and node.id not in rebound):
+                        # this module's own name for the same import
+                        same = sorted(a_ for a_, t_ in imports.items()
+                                      if t_ == himports.get(node.id)
+                                      and a_ not in rebound
+                                      and a_ not in bound)
+                        if same:
+                            return ast.copy_location(ast.Name(
+                                id=same[0], ctx=ast.Load()), node)
+                        return ast.copy_location(ast.Attribute(
+                            value=ast.Name(id=al, ctx=ast.Load()),
+                            attr=node.id, ctx=ast.Load()), node)
+                    return node
+            hf.body = [Q().visit(s_) for s_ in hf.body]
+            _Universal().visit(hf)
+            _KwToPos(_signatures(_core.REPO)).visit(hf)
+            _SplitTupleAssign().visit(hf)
+            tree.body.append(hf)
+            for c in calls:
+                c.func = ast.copy_location(ast.Name(id=h, ctx=ast.Load()),
+                                           c.func)
+            ast.fix_missing_locations(tree)
+            log.append('helper %s of %s (called as %s.%s) copied into the '
+                       'module for inlining' % (h, hm, al, h))
+            done = True
+            break               # names of the module changed: look again
+        if not done:
+            break
+
+
 def _is_call_to(c, name, is_method, cls):
     f = c.func
     if is_method:
@@ -4649,6 +4794,7 @@ def canonicalise(tree, modname, text=None):
         if hashlib.sha1(text.encode()).hexdigest() == table.get('__sha1__'):
             ast.fix_missing_locations(tree)
             return log          # the file the reference was taken from
+    _import_foreign_helpers(tree, modname, ref, log)
     _inline_helpers(tree, modname, ref, log)
     helpers_inlined = bool(log)
     for q, fn, cls, body in qualfuncs(tree):
